@@ -212,6 +212,23 @@ def oracle(doc, sp, text, info, with_tools=None):
                 fails += _cmp(f"validate-fix-{str(fix).lower()}", wf, wz, r["canonical"])
             else:
                 fails.append(("C05:unlisted:validate:refused", f"octave_validate(fix={fix}) refuses: {r.get('errors')}"))
+        # a zone line ending in a carriage return (a captured HTTP header, a .bat snippet) handed over as `content`: the CR is
+        # zone content like any other character (the reader API and the tool agree on that, and the canonical text keeps it)
+        from vf.props.c14 import crlf_in_zone
+
+        tcr = crlf_in_zone(text) if "\r" not in text else None
+        if tcr is not None:
+            try:
+                ccr = emit(parse_with_warnings(tcr)[0])
+            except (LexerError, ParserError):
+                ccr = None
+            if ccr is not None and ccr.count("\r") == 1:
+                r = tools.validate(content=tcr, schema="META")
+                if r.get("status") == "success" and isinstance(r.get("canonical"), str) and r["canonical"] != ccr:
+                    fails.append(("C05:unlisted:validate:cr-in-zone-content-changed", f"octave_validate(content) of a zone line ending in CR: canonical {r['canonical']!r} != emit(parse) {ccr!r}"))
+                e = tools.eject(content=tcr, format="json", schema="META")
+                if e.get("status") == "success" and "\\r" not in str(e.get("output")):
+                    fails.append(("C05:unlisted:eject:cr-in-zone-content-changed", f"octave_eject(content, json) of a zone line ending in CR holds no CR: {str(e.get('output'))[:300]!r}"))
         with scratch_dir() as root:
             path = os.path.join(root, "z.oct.md")
             w = tools.write(target_path=path, content=text, lenient=lenient)
